@@ -141,7 +141,7 @@ def cases(draw, tier):
         "type": spec, "value": value, "ops": ops,
         "buf": {"kind": draw(st.sampled_from(["numpy", "numpy", "bytearray"])), "cap": draw(st.sampled_from([0, 64, 256, 1024])),
                 "align": draw(st.sampled_from([1, 8, 16])), "grow_step": draw(st.one_of(st.none(), st.integers(1, 128)))},
-        "capi": draw(st.integers(0, 5)) == 0, "special": special,
+        "capi": draw(st.integers(0, 5)) == 0, "special": special, "default_as_object": draw(st.booleans()),
     }
 
 
@@ -277,6 +277,18 @@ def run_case(case):
     tr = pl.Tracer(A)
     Bbuf = cls(capacity=64, context=ctx)
     Cbuf = BufferNumpy(capacity=64, context=xo.ContextCpu())
+    if spec.get("name") == "DW" and case.get("default_as_object"):
+        # the declared default of the items' reference field is an OBJECT of the target type living in the holder's
+        # buffer (instead of plain data): every holder / item must still get a referent of its own
+        inode = node.kids[2]  # field "one": the item struct DN
+        tnode_ = inode.kids[1].kids[0]
+        fld = inode.cls.r
+        dobj = sut(tnode_.cls, assign.plain_arg(tnode_, spec["fields"][2][1]["fields"][1][1]["default"]), _buffer=A)
+        if is_raised(dobj):
+            return fail("construct_raised", f"default object: {dobj}", dobj.key, labels)
+        fld.default = dobj
+        node.kids[1].kids[0].cls.r.default = dobj  # the items of the array are of a class object of their own
+        labels.add("declared_default_is_an_object_in_the_holders_buffer")
     holder = sut(mat.construct, node, case["value"], mat.Forms([0]), mat.Env(A, ctx), _buffer=A)
     if is_raised(holder):
         return fail("construct_raised", f"{holder}", holder.key, labels)
@@ -389,6 +401,16 @@ def run_case(case):
     r = check_all("initial")
     if r:
         return r
+    if "declared_default_is_an_object_in_the_holders_buffer" in labels:
+        offs_ = []
+        for pth_, _rs in mat.ref_slots(spec, model):
+            h_ = sut(lambda: mat.obj_get(holder, node, pth_ + [["d"]])[0])
+            if is_raised(h_):
+                return fail("read_raised", f"initial: slot {pth_}: {h_}", h_.key, labels)
+            if h_ is not None:
+                offs_.append(int(h_._offset))
+        if len(set(offs_)) != len(offs_) or int(dobj._offset) in offs_:
+            return fail("default_referent_shared", f"slots filled from the declared default resolve to offsets {offs_}; the default object itself is at {int(dobj._offset)}: every holder / item must get a referent of its own", "", labels)
 
     def slot_parent(path, via, salt):
         return assign.reach(holder, node, path[:-1], via, salt)
